@@ -76,6 +76,9 @@ def _wrun(chunk):
     first = True
     for case in chunk:
         try:
+            from . import env as _env
+
+            _env.CLOCK.now = 1_700_000_000.0  # every case starts from the same wall clock
             r = mod.run_case(case)
             if first and getattr(mod, "DETERMINISM_SELFTEST", True):
                 first = False
